@@ -152,11 +152,12 @@ class Gen:
             return out
         for e in names[:1 + self.r.below(len(names))]:
             out.append(f"{pad}if ({v} & {e}) {{")
-            out += self.inner(ind + 4, fdepth)
+            # constants inside the arms of separate flag ifs are handled by the generator (unlike enum arms, see known findings)
+            out += self.inner(ind + 4, fdepth, flagarm=True)
             out.append(pad + "}")
         return out
 
-    def inner(self, ind, depth, noconst=False):
+    def inner(self, ind, depth, noconst=False, flagarm=False):
         out = self.block(ind, 1 + self.r.below(2))
         if "nested-if" in self.avoid:
             depth = 99
@@ -170,7 +171,7 @@ class Gen:
                     continue
                 keep.append(l)
             out = keep or [" " * ind + f"u32 {self.name()};"]
-        if noconst or "arm+const" in self.avoid:
+        if noconst or ("arm+const" in self.avoid and not flagarm):
             out = [l for l in out if " = " not in l] or [" " * ind + f"u8 {self.name()};"]
         if depth < 1 and self.r.below(3) == 0:
             out += self.if_enum(ind, depth + 1) if self.r.below(2) else self.if_flag(ind, depth + 1)
@@ -233,6 +234,25 @@ def systematic(rng, start_index):
                 if b != "empty":
                     body += f"    else {{\n{arm(b)}    }}\n"
                 body += f"    u16 {g.name()};\n"
+                kind = "smsg" if idx % 2 else "cmsg"
+                name = f"{kind.upper()}_VERIF_{g.name('').upper()}"
+                g.out.append(f"{kind} {name} = 0x{0x0C00 + idx:04X} {{\n{body}}} {{\n    versions = \"1.12\";\n}}\n")
+                text += g.out
+                msgs.append((name, kind, 0x0C00 + idx))
+                idx += 1
+    # flag-arm shapes: members that are on the wire but not in the Rust struct (constants) inside the arms of separate flag ifs, with
+    # and without a self.size field in front and with a second arm / a member after the ifs (declared size = bytes written)
+    for with_size in (False, True):
+        for arm2 in (["u16 {a} = 0;", "u8 {b};"], ["u32 {a} = 7;"], ["u8 {a};", "u16 {b} = 513;"], ["Guid {a};", "u8 {b} = 1;"]):
+            for tail in ("", "    u8 {t};\n"):
+                g = Gen(rng, idx)
+                g.names = names
+                fn, ty, ens = g.flag()
+                v = g.name()
+                body = (f"    u16 {g.name()} = self.size;\n" if with_size else "") + f"    u8 {g.name()};\n    {fn} {v};\n"
+                body += f"    if ({v} & {ens[0][0]}) {{\n        u8 {g.name()};\n    }}\n"
+                body += f"    if ({v} & {ens[1][0]}) {{\n" + "".join("        " + l.format(a=g.name(), b=g.name()) + "\n" for l in arm2) + "    }\n"
+                body += tail.format(t=g.name())
                 kind = "smsg" if idx % 2 else "cmsg"
                 name = f"{kind.upper()}_VERIF_{g.name('').upper()}"
                 g.out.append(f"{kind} {name} = 0x{0x0C00 + idx:04X} {{\n{body}}} {{\n    versions = \"1.12\";\n}}\n")
